@@ -339,9 +339,11 @@ let () =
                         caseid !evno (if i.i_nhf <> None then "nexthopfaceid" else "strategy") (string_of_name i.i_name) (dec_of_n o.o_face)
                         (hex_of_bytes o.o_tok) (hex_of_bytes (up_token s.tid (n_of_dec t)))) outs_all
                 | _ -> ());
+               (* an Interest answered from the cache (a Data was sent in reply) is consumed by that reply, whatever the PIT keeps *)
+               let answered = List.exists (fun o -> o.o_kind = KData) outs_all in
                (match impl_pending (hget b.bpit k "pit") (string_of_name i.i_name) (b01 i.i_cbp) (b01 i.i_mbf) hk (dec_of_n i.i_face) (dec_of_n now) with
-                | Some tok -> sp.(k) <- pend_interest s.regions sp.(k) now i (n_of_dec tok)
-                | None -> ())
+                | Some tok when not answered -> sp.(k) <- pend_interest s.regions sp.(k) now i (n_of_dec tok)
+                | _ -> ())
            | WLocal (k, ETick now) ->
                if outs_impl <> [] then Printf.printf "ORACLE C01 %s %d spontaneous | a PIT update emitted packets: [%s]\n" caseid !evno outs_impl_str;
                let k = int_of_n k in if k < nt then sp.(k) <- pend_tick sp.(k) now
